@@ -13,6 +13,7 @@ theorems: that the fitted phase is the posterior probability of the first branch
 `mutational_timescale` then does with the counts (C25), floating-point rounding of the additions.
 -/
 import TsdateVerif.Proofs.Realloc
+import TsdateVerif.Proofs.BlocksDistinct
 
 namespace Tsdate.C23
 open Tsdate Tsdate.Blocks
@@ -120,6 +121,37 @@ theorem placed_branch_gets_larger_share (close : α → α → Bool) (child : Ar
     by_cases hlt : φ < 1 / 2
     · rw [placedEdge_lt _ hlt, credit_second bedges b φ hbs hne, flipPhase_lt hlt]
     · rw [placedEdge_ge _ hlt, credit_first bedges b φ hbs hne, flipPhase_ge hlt]
+
+/-- **The same, for the blocks `_block_singletons` computes**: the "two block edges are different" hypothesis
+of `placed_branch_gets_larger_share` holds for every block the kernel returns, as soon as the edge insertion
+index lists no edge twice (a tskit contract, evaluated on every generated input). -/
+theorem placed_branch_gets_larger_share_of_computed_blocks {γ : Type} [Inhabited γ] [Sub γ] [BEq γ] [LT γ]
+    [DecidableLT γ] (inp : Input γ) (zero : γ) (out : Output γ)
+    (hblocks : blockSingletons inp zero = some out) (hinj : InsertionInjective inp.toEdgeInput)
+    (close : α → α → Bool) (f f' : Fit α)
+    (h : inferTail close (1 / 2 : α) true inp.child out.edges.toArray out.mblock.toList f = some f')
+    (m b : Nat) (φ : α) (olde : Option Nat) (oldn : Nat)
+    (hb : out.mblock.toList[m]? = some (some b)) (hφ : f.phase[m]? = some (some φ))
+    (he : f.mutEdge[m]? = some olde) (hn : f.mutNode[m]? = some oldn) :
+    ∃ e, f'.mutEdge[m]? = some (some e) ∧
+      (e = (aget out.edges.toArray b).1 ∨ e = (aget out.edges.toArray b).2) ∧
+      1 / 2 ≤ credit out.edges.toArray e (some b, some φ) ∧
+      f'.phase[m]? = some (some (credit out.edges.toArray e (some b, some φ))) := by
+  have hmem : (some b, some φ) ∈ out.mblock.toList.zip f.phase := by
+    have : (out.mblock.toList.zip f.phase)[m]? = some (some b, some φ) := by
+      simp [List.getElem?_zip_eq_some, hb, hφ]
+    exact List.mem_of_getElem? this
+  obtain ⟨outl, hr, _⟩ := inferTail_some h
+  obtain ⟨hbs, _, _⟩ := reallocate_phases_valid close _ _ _ _ _ hr b φ hmem
+  have hbs' : b < out.edges.length := by simpa using hbs
+  have hne : (aget out.edges.toArray b).1 ≠ (aget out.edges.toArray b).2 := by
+    have hget : out.edges[b]? = some (out.edges[b]) := List.getElem?_eq_getElem hbs'
+    have hag : aget out.edges.toArray b = out.edges[b] := by simp [aget, hget]
+    rw [hag]
+    exact blockSingletons_edges_distinct hblocks hinj b _ _ hget
+  obtain ⟨e, h1, _, h3, h4, h5⟩ := placed_branch_gets_larger_share close inp.child out.edges.toArray
+    out.mblock.toList f f' h m b φ olde oldn hb hφ he hn hne
+  exact ⟨e, h1, h3, h4, h5⟩
 
 /-- **Regression guard (finding F8): the order before repair 9280c6b violates the property.**  With the flip
 done *before* the rescaling, every singleton whose fitted phase is below 1/2 (so that it is moved to the
